@@ -43,11 +43,15 @@ def blame(exc) -> str:
         return "harness"
     if not any("/PyMatterSim/" in f for f in files):
         return "harness"
-    last = files[-1]
-    verif_root = os.path.dirname(os.path.dirname(os.path.abspath(__file__)))
-    if last.startswith(verif_root):
-        # raised by engine/facade code while running repo code: only SymbolicLeak-like gaps end here
+    if isinstance(exc, (S.SymbolicLeak, HarnessError)):
         return "harness"
+    # frames after the last repo frame: facade code delegating to numpy/builtins is fine (the concrete replay is
+    # the arbiter); a check module or the engine raising is a harness problem
+    last_repo = max(i for i, f in enumerate(files) if "/PyMatterSim/" in f)
+    verif_root = os.path.dirname(os.path.dirname(os.path.abspath(__file__)))
+    for f in files[last_repo + 1:]:
+        if f.startswith(os.path.join(verif_root, "checks")) or f.endswith("symx/engine.py"):
+            return "harness"
     return "repo"
 
 
